@@ -76,6 +76,7 @@ type Contract struct {
 	PanicsOK   bool
 	Variant    string            // alternative contract of the same function: key written as `name@variant`
 	Use        map[string]string // callee full name -> variant this function's proof relies on
+	NonBlocking bool // a plain channel send in the function is an obligation (the function must not wait on other goroutines)
 	FrameOnly  bool // only frame (assigns) and contract obligations: a panicking operation ends the execution, its no-panic condition is assumed afterwards
 	Params     []string // optional explicit parameter names for assumed contracts on functions without source names
 	File       string
@@ -151,7 +152,7 @@ var labelRe = regexp.MustCompile(`^\[([A-Za-z0-9_.:\-]+)\]\s*`)
 
 var clauseKW = map[string]bool{"props": true, "requires": true, "ensures": true, "assigns": true, "canary": true,
 	"loop": true, "decreases": true, "nooverflow": true, "assumed": true, "inline": true, "let": true, "panics_ok": true,
-	"params": true, "frame_only": true, "use": true, "ghost": true, "terminates": true, "bytes": true, "split": true, "uses": true, "after": true, "calls": true,
+	"params": true, "frame_only": true, "nonblocking": true, "use": true, "ghost": true, "terminates": true, "bytes": true, "split": true, "uses": true, "after": true, "calls": true,
 	"maxalloc": true, "allocates": true, "generic": true, "callarg": true}
 
 // FnName: the SSA name of the function the contract is about (the variant suffix removed).
@@ -391,6 +392,8 @@ func (c *Contract) addClause(kw, text string, line int) error {
 		c.Inline = true
 	case "panics_ok":
 		c.PanicsOK = true
+	case "nonblocking":
+		c.NonBlocking = true
 	case "frame_only":
 		c.FrameOnly = true
 		c.PanicsOK = true
